@@ -11,7 +11,11 @@ open Monero
 /-! Driver step of C09 / C10 / C11. Model side: the functions of Model/Crypto.lean and Model/SubAddr.lean instantiated with
 `Drv.refOps` (reference curve + Keccak). Spec side: the by-the-book sender `Spec.Sender` instantiated with `refPrims`
 (built directly from `Ed`/`Keccak`, not from `refOps`), scalar formulas written out here, `Spec.Address.text` for addresses.
-Scalars and points travel as 32-byte hex; positions and indices in decimal. -/
+Scalars and points travel as 32-byte hex; positions and indices in decimal.
+NOTE on the `c11_*` arms: `refPrims` is definitionally `specPrims refOps`, so by `C11_keys_are_spec` the model and the spec column are
+provably equal on every accepted input — the model-vs-spec comparison cannot fire there and is NOT independent evidence for C11. The
+discriminating comparisons are Rust vs Lean and Rust vs the dalek formulas written in the harness (`dest_at`, `sub_scalar`,
+`address_text`). -/
 namespace Drv
 namespace C10
 /-- the reference primitives for the specification -/
@@ -56,13 +60,16 @@ def scanErrName : Scan.ScanErr → String
   | .missingEcdhInfo => "MissingEcdhInfo"
   | .missingCommitment => "MissingCommitment"
   | .invalidCommitment => "InvalidCommitment"
-/-- `Transaction::check_outputs` then `OwnedTxOut::recover_key` on every reported output (`Scan.Owned.recoverKey`) -/
-def showScanRecover (v s : Nat) : Except Scan.ScanErr (List Scan.Owned) → String
+/-- `Transaction::check_outputs` then `OwnedTxOut::recover_key` on every reported output, for a given recovery function -/
+def showScanRecoverWith (recover : Scan.Owned → Option Nat) : Except Scan.ScanErr (List Scan.Owned) → String
   | .error e => "err " ++ scanErrName e
   | .ok ws => " ".intercalate (s!"ok {ws.length}" :: ws.map fun w =>
-      match Scan.Owned.recoverKey refOps w v s with
+      match recover w with
       | some x => s!"{w.index}:{w.sub.1}/{w.sub.2}:{encS x}"
       | none => s!"{w.index}:{w.sub.1}/{w.sub.2}:PANIC")
+/-- … with the model of `OwnedTxOut::recover_key` (`Scan.Owned.recoverKey`) on the reference instance -/
+def showScanRecover (v s : Nat) : Except Scan.ScanErr (List Scan.Owned) → String :=
+  showScanRecoverWith fun w => Scan.Owned.recoverKey refOps w v s
 end C10
 open C10 in
 /-- Operations (all → `err` on both sides if an operand is not an accepted key / number):
@@ -75,6 +82,10 @@ open C10 in
   spec: `Hs(8vR ‖ n) + s'` mod l;
 `c11_sub_pub <v> <S> <i> <j>` → `<view> <spend>`: `get_public_keys`; spec: keys of `Spec.Sender.destAt`;
 `c11_sub_sec <v> <s> <i> <j>` → `<view sec> <spend sec>`: `get_secret_keys`; spec: (v, s) at (0,0), else `(v·s', s')`;
+`c09_scan_pre <v> <s> <majLo> <majHi> <minLo> <minHi> <prefix> <none|null>` → as `c09_scan_tx`, through `TransactionPrefix::check_outputs`
+  WITHOUT RingCT data (`None`, or a base of type `Null`);
+`c11_view_sec` / `c11_spend_sec <v> <s> <i> <j>` → scalar: `get_view_secret_key` / `get_spend_secret_key` called directly;
+`c11_spend_pub <v> <S> <i> <j>` → point: `get_spend_public_key` called directly;
 `c11_sub_addr <v> <S> <i> <j> <Mainnet|Testnet|Stagenet|None>` → address text (hex of UTF-8): `get_subaddress(..).to_string()`;
   spec: the subaddress-typed address text (`Spec.Address.text`, tag of the requested network, Mainnet for `None`) of the
   keys of `Spec.Sender.destAt` — (S', V') for (i,j) ≠ (0,0), the primary keys (S, V) at (0,0). This is the LETTER of C11
@@ -163,6 +174,27 @@ def stepC10 : Step
                      | some (t, []) => pure (showScanRecover v s (Scan.checkOutputsTx refOps decPerm t v (refOps.smul s refOps.base) a b c d))
                      | _ => none) with
            | none => "err" | some r => r), "-")
+  | ["c09_scan_pre", v, s, a, b, c, d, h, base] =>
+    -- `TransactionPrefix::check_outputs(.., None | Some(&RctSigBase { rct_type: Null, .. }))` (no RingCT data), then `recover_key`
+    some ((match (do let v ← scalarOf v; let s ← scalarOf s; let a ← u32Of a; let b ← u32Of b; let c ← u32Of c; let d ← u32Of d
+                     let base : Option Base ← (if base == "none" then some none
+                                               else if base == "null" then some (some ⟨0, 0, [], [], []⟩) else none)
+                     match Monero.prefix' (Hex.decode h) with
+                     | some (p, []) => pure (showScanRecover v s (Scan.checkOutputsPrefix refOps decPerm p v (refOps.smul s refOps.base) a b c d base))
+                     | _ => none) with
+           | none => "err" | some r => r), "-")
+  | ["c11_view_sec", v, s, i, j] =>
+    some (showSc (do let v ← scalarOf v; let s ← scalarOf s; let i ← u32Of i; let j ← u32Of j; pure (subViewSec refOps v s i j)),
+          showSc (do let v ← scalarOf v; let s ← scalarOf s; let i ← u32Of i; let j ← u32Of j
+                     pure (if i = 0 ∧ j = 0 then v else Spec.Sender.subViewSec refPrims v s i j)))
+  | ["c11_spend_sec", v, s, i, j] =>
+    some (showSc (do let v ← scalarOf v; let s ← scalarOf s; let i ← u32Of i; let j ← u32Of j; pure (subSpendSec refOps v s i j)),
+          showSc (do let v ← scalarOf v; let s ← scalarOf s; let i ← u32Of i; let j ← u32Of j
+                     pure (if i = 0 ∧ j = 0 then s else Spec.Sender.subSpendSec refPrims v s i j)))
+  | ["c11_spend_pub", v, s, i, j] =>
+    some (showPt (do let v ← scalarOf v; let S ← ptModel s; let i ← u32Of i; let j ← u32Of j; pure (subSpendPub refOps v S i j)),
+          showPt (do let v ← scalarOf v; let S ← ptSpec s; let i ← u32Of i; let j ← u32Of j
+                     pure (Spec.Sender.destAt refPrims v S i j).spend))
   | ["c10_rvn", v, r, n] =>
     some (showSc (do let v ← scalarOf v; let R ← ptModel r; let n ← u64Of n
                      pure (rvnScalar refOps (deriveReceiver refOps v R) n)),
